@@ -558,7 +558,17 @@ def run_shard(shard, rec):
                             rec.count("codec_baseexc_ok")
         return      # this shard only decides the codec-level part
     sername = shard["serializer"]
-    fx = fixture.Fixture(servertype=shard["servertype"], COMMTIMEOUT=0.0, ITER_STREAMING=True, variant=fixture.variant_for(rec.seed, "c07", repr(sorted(shard.items()))))
+    dcls = None
+    if (len(sername) + len(shard["servertype"]) + rec.seed) % 2:
+        # an application's Daemon subclass that has a METHOD of the name the daemon uses for its error-handler attribute (written the way one
+        # writes any other override: self first). Whether or not the library ever calls it, exceptions reach the caller as they were raised
+        class AppDaemon(P.server.Daemon):
+            def methodcall_error_handler(self, client_sock, method, vargs, kwargs, exception):
+                rec.count("subclass_error_handler_method_calls")
+        dcls = fixture.make_monitored_daemon_class(base=AppDaemon, hooks_on_instance=fixture.variant_for(rec.seed, "c07", repr(sorted(shard.items()))) >= len(fixture.VARIANTS))
+        rec.count("shards_with_error_handler_method_in_subclass")
+    fx = fixture.Fixture(servertype=shard["servertype"], COMMTIMEOUT=0.0, ITER_STREAMING=True, daemon_cls=dcls,
+                         variant=fixture.variant_for(rec.seed, "c07", repr(sorted(shard.items()))))
     rec.count("fixture_variant:" + fx.variant)
     try:
         armed, svc = make_service(P, registry)
